@@ -39,6 +39,16 @@ CHECKS.update({
         note=_SOLVER_NOTE + " The joint clamp (either axis too large resets both) is modelled as the code does it; the mixed case is not asserted either way.", design="4/C11"),
 })
 
+
+CHECKS.update({
+    "C16": dict(technique="TLC exhaustive model checking of spec/Config.tla (scenario met: 7500 forcing patterns) + replay of every pattern through MetConfig.validate / parse_config_dict / n_timesteps / get_step and of a covering subset through run_bldfm_timeseries",
+        text="TLC enumerates all 7500 forcing patterns (ustar absent/scalar/list 1..4, the other three fields scalar/list 1..4, z0, timestamps absent/1..4) and checks on the specification that a forcing is rejected iff the property calls it invalid, that exactly one step exists per list entry, that scalars broadcast and that the timestamp or index is attached; every pattern is replayed on the real classes token by token (exact), and a seeded subset is run through the timeseries driver to check the number of results and the per-step parameters. A negative-control configuration with the pinned commit's counting rule must be violated (thorough).",
+        note="Token instantiation is injective; list lengths up to 4 (the code has no length-dependent branch); the CLI loop is the same range(n_timesteps) as the driver and is not run separately.", design="4/C16"),
+    "C13": dict(technique="TLC model checking of spec/Config.tla (scenario single: 107100 option-lattice x forcing points, call-record invariants) + replay of a seeded sample of lattice points: recorded arguments of the four low-level calls vs the specification's records, high-level result vs explicit pipeline bit-identically, YAML vs dict",
+        text="The specification defines SingleCall(options, forcing, step): the argument records of compute_wind_fields, vertical_profiles, ideal_source and steady_state_transport_solver and the returned metadata. TLC checks on the whole lattice that each step uses its own step's and its own tower's tokens with z0 taking precedence. The harness wraps the four functions as seen from bldfm.interface, runs run_bldfm_single for every sampled point and step, compares every recorded argument with the specification's record (objects passed between steps by identity), then calls the low-level functions by hand with the specification's numbers and compares grid/conc/flx/metadata bit-identically; load_config(yaml) must equal parse_config_dict(dict).",
+        note="Sampling of the lattice for replay is seeded (every 150th point quick, every 12th thorough); TLC itself covers all points. Exceptions raised identically by both sides (e.g. OAAHOC with z0-only forcing) count as agreement.", design="4/C13"),
+})
+
 NOT_APPLICABLE = {
     "C01": "asymptotic numerical accuracy against an ODE boundary-value solution: no discrete state/transition content for a TLA+ model; needs a numerical differential oracle (different technique)",
     "C09": "real-valued identities of transcendental similarity formulas and floating-point arange rounding; nothing for TLC (integers only) to enumerate",
